@@ -82,7 +82,7 @@ def replay_diff(text, cfgA, cfgB, values, tol=1e-8, ignore_extra_zero=False):
 
 def diff_check(text, cfgA, cfgB, descA, descB, groups=(), name="", prop="", timeout_ms=20000,
                bool_route=True, real_route=True, st=None, tol=1e-8, ignore_extra_zero=True,
-               max_real_params=14):
+               max_real_params=14, classify=None):
     """Obligations: A and B agree (errors, instance sets, values for all parameter values and
     all worlds). Returns Stats."""
     st = st if st is not None else Stats()
@@ -106,6 +106,8 @@ def diff_check(text, cfgA, cfgB, descA, descB, groups=(), name="", prop="", time
                     k_, r_ = concrete(cfg, text, values)
                     if k_ == "error" and not isinstance(r_, ProbLogError):
                         key = "error:%s@%s" % (type(r_).__name__, call_site(r_))
+            if classify is not None:
+                key = classify(symsem.substitute_params(text, values), key) or key
             st.violation(key, "%s :: %s" % (what, info),
                          {"kind": "diff", "program": text, "A": descA, "B": descB,
                           "values": dict((k, str(v)) for k, v in values.items())})
